@@ -280,3 +280,14 @@ def flood_coarse_rounding_hang(case, tag, event):
     return _coarse(case)
 
 KNOWN_CLASSES["flood_coarse_rounding_hang"] = flood_coarse_rounding_hang
+
+def circle_square_overflow(case, tag, event):
+    """a circle query on which a squared distance or the squared radius overflows the scalar type (f32: a coordinate or the radius above
+    ~1.8e19; f64: above ~1.3e154): the circle metric compares infinities"""
+    if tag != "shape" or not case.ops or case.ops[-1].split()[0] not in ("vcirc", "ecirc"):
+        return False
+    lim = 1.8e19 if case.scalar == "f32" else 1.3e154
+    vals = _all_coords(case)
+    return bool(vals) and 2 * max(vals) > lim
+
+KNOWN_CLASSES["circle_square_overflow"] = circle_square_overflow
